@@ -62,6 +62,13 @@ Theorem C01_frame_accessors_safe : forall c s f,
 Proof. exact frame_accessors_safe. Qed.
 Print Assumptions C01_frame_accessors_safe.
 
+(* The exported surface of Frame is: the six slice accessors above, HasIP (reads two offsets), the fields PayloadID /
+   SrcAddr / DstAddr / Host / Session, and Log(line), which evaluates len(Payload()).  The list is checked against
+   the Go type by reflection on every run (dispatch kind "m": a new method or exported field is a disagreement). *)
+Theorem C01_frame_log_safe : forall c s f, wf s -> parse c s = Ok f -> frame_log s f = Ok tt.
+Proof. exact frame_log_safe. Qed.
+Print Assumptions C01_frame_log_safe.
+
 Example C01_frame_accessors_safe_nonvacuous :
   let s := of_bytes ex_arp28 in
   wf s /\ exists f, parse cfg0 s = Ok f /\
